@@ -427,6 +427,33 @@ fn transient_read_fault(bytes: &[u8]) -> Option<(String, String)> {
     None
 }
 
+/// On a real FileSystem source: a directory sits where the file of the first extension should be and the second
+/// extension is absent: the load fails with the I/O error of the first (it is not "not found"); once the second
+/// extension exists the same call loads it.
+fn directory_in_place_of_file() -> Option<(String, String)> {
+    let dir = crate::trees::tmpdir("c03");
+    let r = (|| {
+        std::fs::create_dir_all(dir.join("t.x")).ok()?;
+        let cache = AssetCache::new(&dir).ok()?;
+        DV_MODE.with(|m| m.set(0));
+        DV_SEEN.with(|s| s.borrow_mut().clear());
+        let first = do_op::<Ext<2>>(cache.as_any_cache(), "t", LoadKind::Load);
+        match &first {
+            Got::Err(ids, Class::IoOther, Some(_)) if ids == &vec!["t".to_string()] => {}
+            other => return Some(Some(("error-class".to_string(), format!("FileSystem source, extensions [\"x\", \"y\"]: `t.x` is a directory and `t.y` does not exist: the load returned {other:?}, expected an error naming \"t\" whose reason is the I/O error met on t.x (preferred over not-found)")))),
+        }
+        std::fs::write(dir.join("t.y"), b"second").ok()?;
+        let again = do_op::<Ext<2>>(cache.as_any_cache(), "t", LoadKind::Load);
+        let want = Got::Val(format!("{:?}={}", "y", render_bytes(b"second")));
+        if again != want {
+            return Some(Some(("value-mismatch".to_string(), format!("FileSystem source: `t.x` is a directory, `t.y` now exists: the load returned {again:?}, expected {want:?}"))));
+        }
+        Some(None)
+    })();
+    let _ = std::fs::remove_dir_all(&dir);
+    r.flatten()
+}
+
 /// Whether the content is a parseable payload between non-ASCII white space
 fn unicode_ws_around_payload(bytes: &[u8]) -> bool {
     match std::str::from_utf8(bytes) {
@@ -513,7 +540,7 @@ impl Prop for C03 {
          load / load_owned / load_expect / contains / get_cached at any chain level). Oracle computed from the statement: first declared extension that is present \
          and decodable wins and the loader sees exactly its bytes and extension; otherwise error class Conversion > Io(other) > NotFound > no-default, default_value \
          receives that class and decides; errors name the requested id and nest once per compound level; failures cache nothing; cached levels shadow later edits, load_owned follows the source. \
-         Every content of the case also goes through the loaders the crate ships (BytesLoader, StringLoader, ParseLoader for u64 / i32 / f64 / bool / char / IpAddr, borrowed and owned; the String and SharedString assets through a cache): exactly the bytes / exactly the text / FromStr of the text without its surrounding (Unicode) white space; and a read that fails once with each of 8 I/O error kinds (incl. Interrupted, WouldBlock) fails that load with that error after exactly one read, or falls through to the next extension, and caches nothing. \
+         Every content of the case also goes through the loaders the crate ships (BytesLoader, StringLoader, ParseLoader for u64 / i32 / f64 / bool / char / IpAddr, borrowed and owned; the String and SharedString assets through a cache): exactly the bytes / exactly the text / FromStr of the text without its surrounding (Unicode) white space; and a read that fails once with each of 8 I/O error kinds (incl. Interrupted, WouldBlock) fails that load with that error after exactly one read, or falls through to the next extension, and caches nothing; in one case in eight a real FileSystem source with a directory in place of the first extension's file (an I/O error, preferred over the second extension's not-found). \
          non-trivial = >= 2 declared extensions in different states, or a failing load followed by a successful one on the same level, or depth >= 2; distinct = different canonical JSON"
             .into()
     }
@@ -712,6 +739,12 @@ impl Prop for C03 {
             Step::Edit { state, .. } => Some(state),
             _ => None,
         }));
+        if c.steps.len() % 8 == 3 {
+            if let Some((sig, what)) = directory_in_place_of_file() {
+                out.fail(sig, what);
+                return out;
+            }
+        }
         let mut seen_ws = false;
         let mut transient_done = false;
         for st in contents {
